@@ -1,4 +1,202 @@
 package main
 
-// viewCases: String/FastLog of views and table entries (filled in by the next slice)
-func viewCases(g *gen) {}
+// String/FastLog of protocol views and table entries: every value for which IsValid()
+// reports no error (well-formed frames from independent writers, and random byte strings
+// that happen to pass IsValid) must render without panic. Go-side oracle (viol records);
+// the no-panic theorem for a line that fits is C20_line, the views compose appenders.
+
+import (
+	"fmt"
+	"net"
+	"net/netip"
+	"time"
+
+	"github.com/irai/packet"
+	"github.com/irai/packet/fastlog"
+	"github.com/irai/packet/handlers/dhcp4_spoofer"
+	"pvharness/lib"
+)
+
+type view interface {
+	IsValid() error
+	String() string
+	FastLog(*fastlog.Line) *fastlog.Line
+}
+
+type entry interface {
+	FastLog(*fastlog.Line) *fastlog.Line
+}
+
+func (g *gen) checkView(kind string, v view, raw []byte) {
+	if v.IsValid() != nil {
+		g.r.Stat("view.invalid."+kind, 1)
+		return
+	}
+	g.r.Stat("view.valid."+kind, 1)
+	g.checkEntry(kind, v, raw)
+	if p, msg := lib.Catch(func() { _ = v.String() }); p {
+		g.r.Viol("c20-view-panic-"+kind+"-String", fmt.Sprintf("%s.String() panics on a value accepted by IsValid: %s: %s", kind, lib.Hex(raw), msg), "view "+kind+" "+lib.Hex(raw))
+	}
+}
+
+func (g *gen) checkEntry(kind string, v entry, raw []byte) {
+	var text string
+	p, msg := lib.Catch(func() { text = v.FastLog(newLine('.', 7)).ToString() })
+	if p {
+		g.r.Viol("c20-view-panic-"+kind+"-FastLog", fmt.Sprintf("%s.FastLog() panics on a valid value: %s: %s", kind, lib.Hex(raw), msg), "view "+kind+" "+lib.Hex(raw))
+		return
+	}
+	if len(text) > 1500 {
+		g.r.Stat("view.longtext."+kind, 1)
+	}
+}
+
+func (g *gen) mac() net.HardwareAddr {
+	return net.HardwareAddr{g.bval() &^ 1, g.bval(), g.bval(), g.bval(), g.bval(), g.bval()}
+}
+func (g *gen) a4() netip.Addr { return addrOf(g.ip4()) }
+func (g *gen) a6() netip.Addr { return addrOf(g.ip6()) }
+
+func dhcp4Frame(g *gen) []byte {
+	b := make([]byte, 240)
+	b[0] = byte(1 + g.rng.Intn(2))
+	b[1], b[2] = 1, 6
+	copy(b[4:8], g.rng.Bytes(4))
+	copy(b[12:16], g.ip4())
+	copy(b[16:20], g.ip4())
+	copy(b[28:34], g.mac())
+	copy(b[236:240], []byte{99, 130, 83, 99})
+	b = append(b, 53, 1, byte(1+g.rng.Intn(8)))
+	if g.rng.Bool() {
+		h := g.asciiN(1 + g.rng.Intn(20))
+		b = append(b, 12, byte(len(h)))
+		b = append(b, h...)
+	}
+	if g.rng.Bool() {
+		b = append(b, 50, 4)
+		b = append(b, g.ip4()...)
+	}
+	b = append(b, 255)
+	return b
+}
+
+func viewCases(g *gen) {
+	rng := g.rng
+	n := 300
+	if g.r.Thorough() {
+		n = 3000
+	}
+	for i := 0; i < n; i++ {
+		payload := rng.Bytes(rng.Intn(64))
+		smac, dmac := g.mac(), g.mac()
+		udp := lib.MkUDP(uint16(rng.U64()), uint16(rng.U64()), payload)
+		ip4 := lib.MkIP4(g.a4(), g.a4(), 17, g.bval(), udp)
+		ip6 := lib.MkIP6(g.a6(), g.a6(), 17, g.bval(), udp)
+		arp := lib.MkARP(uint16(1+rng.Intn(2)), smac, g.a4(), dmac, g.a4())
+		echo := lib.MkICMPEcho(byte(rng.Pick(0, 8)), 0, uint16(rng.U64()), uint16(rng.U64()), payload)
+		s6, d6 := g.a6(), g.a6()
+		ns := lib.MkICMP6(s6, d6, 135, 0, append(append([]byte{0, 0, 0, 0}, g.ip6()...), append([]byte{1, 1}, smac...)...))
+		na := lib.MkICMP6(s6, d6, 136, 0, append(append([]byte{0x60, 0, 0, 0}, g.ip6()...), append([]byte{2, 1}, smac...)...))
+		rs := lib.MkICMP6(s6, d6, 133, 0, append([]byte{0, 0, 0, 0}, append([]byte{1, 1}, smac...)...))
+		ra := lib.MkICMP6(s6, d6, 134, 0, append([]byte{64, 0, 7, 8, 0, 0, 0, 0, 0, 0, 0, 0}, append([]byte{1, 1}, smac...)...))
+		echo6 := lib.MkICMP6(s6, d6, byte(rng.Pick(128, 129)), 0, append([]byte{1, 2, 3, 4}, payload...))
+		g.checkView("Ether", packet.Ether(lib.MkEther(dmac, smac, 0x0800, ip4)), nil)
+		g.checkView("Ether", packet.Ether(lib.MkEther(dmac, smac, 0x86dd, ip6)), nil)
+		g.checkView("Ether", packet.Ether(lib.MkEther(dmac, smac, 0x0806, arp)), nil)
+		g.checkView("IP4", packet.IP4(ip4), ip4)
+		g.checkView("IP4", packet.IP4(lib.MkIP4(g.a4(), g.a4(), 1, 64, echo)), nil)
+		g.checkView("IP6", packet.IP6(ip6), ip6)
+		g.checkView("UDP", packet.UDP(udp), udp)
+		g.checkView("ARP", packet.ARP(arp), arp)
+		g.checkView("ICMP", packet.ICMP(echo), echo)
+		g.checkView("ICMPEcho", packet.ICMPEcho(echo), echo)
+		g.checkView("ICMP", packet.ICMP(ns), ns)
+		g.checkView("ICMPEcho", packet.ICMPEcho(echo6), echo6)
+		g.checkView("ICMP6NeighborSolicitation", packet.ICMP6NeighborSolicitation(ns), ns)
+		g.checkView("ICMP6NeighborAdvertisement", packet.ICMP6NeighborAdvertisement(na), na)
+		g.checkView("ICMP6RouterSolicitation", packet.ICMP6RouterSolicitation(rs), rs)
+		g.checkView("ICMP6RouterAdvertisement", packet.ICMP6RouterAdvertisement(ra), ra)
+		d4 := dhcp4Frame(g)
+		g.checkView("DHCP4", packet.DHCP4(d4), d4)
+		dns := append([]byte{byte(rng.U64()), byte(rng.U64()), byte(rng.Pick(0, 0x80, 0x84)), byte(rng.Intn(6)), 0, 1, 0, byte(rng.Intn(3)), 0, 0, 0, 0},
+			append([]byte{3, 'w', 'w', 'w', 2, 'a', 'b', 0}, 0, 1, 0, 1)...)
+		g.checkView("DNS", packet.DNS(dns), dns)
+		llc := append([]byte{0x42, 0x42, 0x03}, payload...)
+		g.checkView("LLC", packet.LLC(llc), llc)
+		snap := append([]byte{0xaa, 0xaa, 0x03, 0, 0, 0x0c, 0x20, 0x00}, payload...)
+		g.checkView("SNAP", packet.SNAP(snap), snap)
+		pause := append([]byte{0, 1, byte(rng.U64()), byte(rng.U64())}, make([]byte, 42)...)
+		g.checkView("EthernetPause", packet.EthernetPause(pause), pause)
+		i1905 := append([]byte{0, 0, 0, byte(rng.Intn(12)), byte(rng.U64()), byte(rng.U64()), 0, 0x80}, payload...)
+		g.checkView("IEEE1905", packet.IEEE1905(i1905), i1905)
+		lldp := []byte{2, 7, 4}
+		lldp = append(lldp, smac...)
+		lldp = append(lldp, 4, 3, 5, 'e', '0', 6, 2, 0, 120)
+		if rng.Bool() {
+			nm := g.asciiN(1 + rng.Intn(12))
+			lldp = append(lldp, 10, byte(len(nm)))
+			lldp = append(lldp, nm...)
+		}
+		lldp = append(lldp, 0, 0)
+		g.checkView("LLDP", packet.LLDP(lldp), lldp)
+		rrcp := append([]byte{byte(rng.Pick(1, 0x23)), byte(rng.U64()), 0x23, 0x79}, rng.Bytes(12+rng.Intn(50))...)
+		g.checkView("RRCP", packet.RRCP(rrcp), rrcp)
+
+		// random byte strings of every plausible length: rendered only when IsValid accepts them
+		raw := rng.Bytes(rng.Pick(0, 1, 3, 6, 8, 12, 16, 20, 24, 28, 40, 46, 60, 240, 300, rng.Intn(80)))
+		if rng.Bool() && len(raw) > 0 {
+			raw[0] = byte(rng.Pick(0x45, 0x46, 0x4f, 0x60, 1, 2, 8, 133, 134, 135, 136, 137))
+		}
+		g.checkView("Ether", packet.Ether(raw), raw)
+		g.checkView("IP4", packet.IP4(raw), raw)
+		g.checkView("IP6", packet.IP6(raw), raw)
+		g.checkView("UDP", packet.UDP(raw), raw)
+		g.checkView("ARP", packet.ARP(raw), raw)
+		g.checkView("ICMP", packet.ICMP(raw), raw)
+		g.checkView("ICMPEcho", packet.ICMPEcho(raw), raw)
+		g.checkView("ICMP4Redirect", packet.ICMP4Redirect(raw), raw)
+		g.checkView("ICMP6NeighborSolicitation", packet.ICMP6NeighborSolicitation(raw), raw)
+		g.checkView("ICMP6NeighborAdvertisement", packet.ICMP6NeighborAdvertisement(raw), raw)
+		g.checkView("ICMP6RouterSolicitation", packet.ICMP6RouterSolicitation(raw), raw)
+		g.checkView("ICMP6RouterAdvertisement", packet.ICMP6RouterAdvertisement(raw), raw)
+		g.checkView("DHCP4", packet.DHCP4(raw), raw)
+		g.checkView("DNS", packet.DNS(raw), raw)
+		g.checkView("LLC", packet.LLC(raw), raw)
+		g.checkView("SNAP", packet.SNAP(raw), raw)
+		g.checkView("EthernetPause", packet.EthernetPause(raw), raw)
+		g.checkView("IEEE1905", packet.IEEE1905(raw), raw)
+		g.checkView("LLDP", packet.LLDP(raw), raw)
+		g.checkView("RRCP", packet.RRCP(raw), raw)
+
+		// table entries and addresses
+		name := packet.NameEntry{Type: "mdns", Name: string(g.textN(40)), Model: string(g.textN(20)), Manufacturer: string(g.textN(20)), OS: string(g.textN(8)), Expire: time.Unix(int64(rng.Intn(2000000000)), 0)}
+		addr := packet.Addr{MAC: smac, IP: g.a4(), Port: uint16(rng.Pick(0, 0, int(uint16(rng.U64()))))}
+		if rng.Chance(30) {
+			addr.IP = g.a6()
+		}
+		if rng.Chance(10) {
+			addr = packet.Addr{}
+		}
+		me := &packet.MACEntry{MAC: smac, Captured: rng.Bool(), Online: rng.Bool(), IP4: g.a4(), IP6GUA: g.a6(), IP6LLA: g.a6(),
+			LastSeen: time.Now().Add(-time.Duration(rng.Intn(1000000)) * time.Millisecond), Manufacturer: string(g.textN(30)), DHCP4Name: name, MDNSName: name}
+		if rng.Bool() {
+			me.IP4Offer = g.a4()
+		}
+		host := &packet.Host{Addr: addr, MACEntry: me, Online: rng.Bool(), HuntStage: packet.HuntStage(rng.Intn(5)), LastSeen: time.Now(),
+			Manufacturer: string(g.textN(30)), DHCP4Name: name, NBNSName: name}
+		me.HostList = append(me.HostList, host)
+		g.checkEntry("Addr", addr, nil)
+		g.checkEntry("NameEntry", name, nil)
+		g.checkEntry("MACEntry", me, nil)
+		g.checkEntry("Host", *host, nil)
+		g.checkEntry("Notification", packet.Notification{Addr: addr, Online: rng.Bool(), Manufacturer: string(g.textN(30)), DHCP4Name: name, IsRouter: rng.Bool()}, nil)
+		// dhcp4_spoofer.Lease.FastLog dereferences the unexported subnet pointer, which only the handler can
+		// set: leases are rendered through the handler in cmd/c11; only State.String is exercised here
+		_ = dhcp4_spoofer.State(rng.Intn(4)).String()
+		for _, s := range []func(){func() { _ = addr.String() }, func() { _ = me.String() }, func() { _ = host.String() }} {
+			if p, msg := lib.Catch(s); p {
+				g.r.Viol("c20-entry-panic-String", "String() of a table entry panics: "+msg, "")
+			}
+		}
+	}
+}
